@@ -86,6 +86,7 @@ func (g *Gen) modEffects(path string, root func(string) (modRoot, bool), st *Sta
 					oos("modifies %q: .* on non-pointer", path)
 				}
 				objFam = heapFam(pt.Elem())
+				fieldPath = ""
 				if curV != nil {
 					objRef = &curV.C[0]
 				} else {
